@@ -28,15 +28,17 @@ type Start struct {
 	Prefix []string // letters applied through a temporary read-write handle
 	RmIdx  bool     // remove the index files afterwards
 	Damage bool     // flip one byte inside a record of the oldest segment (reads of it fail)
+	Torn   bool     // three stray bytes after the last record of the newest segment (a torn append)
 }
 
 var Starts = []Start{
-	{"empty", nil, false, false},
-	{"single", []string{"P:0/1/u"}, false, false},
-	{"multi", []string{"P:0/1/u", "P:1/1/u", "P:0/1/u", "P:1/1/u", "P:0/1/u"}, false, false},
-	{"multi-noindex", []string{"P:0/1/u", "P:1/1/u", "P:0/1/u"}, true, false},
-	{"never-opened", nil, false, false}, // the directory exists but was never opened before the search
-	{"multi-damaged", []string{"P:0/1/u", "P:1/1/u", "P:0/1/u", "P:1/1/u", "P:0/1/u"}, false, true},
+	{"empty", nil, false, false, false},
+	{"single", []string{"P:0/1/u"}, false, false, false},
+	{"multi", []string{"P:0/1/u", "P:1/1/u", "P:0/1/u", "P:1/1/u", "P:0/1/u"}, false, false, false},
+	{"multi-noindex", []string{"P:0/1/u", "P:1/1/u", "P:0/1/u"}, true, false, false},
+	{"never-opened", nil, false, false, false}, // the directory exists but was never opened before the search
+	{"multi-damaged", []string{"P:0/1/u", "P:1/1/u", "P:0/1/u", "P:1/1/u", "P:0/1/u"}, false, true, false},
+	{"head-torn", []string{"P:0/1/u", "P:1/1/u", "P:0/1/u"}, false, false, true},
 }
 
 var cfg = drv.Cfg{Keys: true, Times: true, Rollover: 60, Ver: 2}
@@ -97,6 +99,15 @@ func build(root string, st Start, hist []string) (*sys, error) {
 				_ = os.Remove(p)
 			}
 		}
+		if st.Torn {
+			s.damaged = true
+			logs, _ := filepath.Glob(filepath.Join(w.Dir, "*.log"))
+			sort.Strings(logs)
+			if f, err := os.OpenFile(logs[len(logs)-1], os.O_WRONLY|os.O_APPEND, 0); err == nil {
+				_, _ = f.Write([]byte{1, 2, 3})
+				_ = f.Close()
+			}
+		}
 		if st.Damage {
 			s.damaged = true
 			logs, _ := filepath.Glob(filepath.Join(w.Dir, "*.log"))
@@ -152,7 +163,7 @@ func (s *sys) letters() []string {
 	for i := 0; i < slots; i++ {
 		if s.mode[i] == 0 {
 			// slots are symmetric: only the lowest closed slot is opened
-			ls = append(ls, fmt.Sprintf("OpenRW:%d", i), fmt.Sprintf("OpenRO:%d", i), fmt.Sprintf("OpenMissing:%d", i))
+			ls = append(ls, fmt.Sprintf("OpenRW:%d", i), fmt.Sprintf("OpenRO:%d", i), fmt.Sprintf("OpenMissing:%d", i), fmt.Sprintf("OpenRORec:%d", i), fmt.Sprintf("OpenROChk:%d", i))
 			if s.headIndexExists() {
 				ls = append(ls, fmt.Sprintf("OpenFailRW:%d", i), fmt.Sprintf("OpenFailRO:%d", i))
 			}
@@ -187,6 +198,24 @@ func (s *sys) apply(letter string) {
 	fmt.Sscan(arg, &i)
 	w := s.w
 	switch kind {
+	case "OpenRORec", "OpenROChk":
+		// read-only with Recover (documented to be downgraded to a check) or Check: whatever the
+		// outcome, a read-only open never changes a log file; if it succeeds it is closed again
+		o := cfg.Options()
+		o.Readonly = true
+		o.Recover = kind == "OpenRORec"
+		o.Check = kind == "OpenROChk"
+		before := logsDigest(w.Dir)
+		l, err := klevdb.Open(w.Dir, o)
+		if err == nil {
+			if s.anyOpen(1) {
+				s.failf("%s succeeded while the directory is open read-write (slots %v)", letter, s.mode)
+			}
+			_ = l.Close()
+		}
+		if d := logsDigest(w.Dir); d != before {
+			s.failf("%s (read-only) changed a log file (open error: %v)", letter, err)
+		}
 	case "OpenMissing":
 		// a directory that does not exist, without CreateDirs: must fail, in both modes, and change nothing
 		for _, ro := range []bool{false, true} {
@@ -218,6 +247,11 @@ func (s *sys) apply(letter string) {
 		o.Readonly = ro
 		logs := logsDigest(w.Dir)
 		l, err := klevdb.Open(w.Dir, o)
+		if ro {
+			if d := logsDigest(w.Dir); d != logs {
+				s.failf("%s (read-only) changed a log file (open error: %v)", letter, err)
+			}
+		}
 		allowed := !s.anyOpen(1) && (ro || !s.anyOpen(2))
 		switch {
 		case err == nil && !allowed:
